@@ -630,7 +630,7 @@ func spawnWorkers(id string, names []string, tier string, extra ...string) [][]b
 			args = append(args, "--shard", jobs[i].shard)
 		}
 		cmd := exec.Command(os.Args[0], args...)
-		cmd.Env = append(os.Environ(), "GOMAXPROCS=1", "GORACE=halt_on_error=0 log_path="+logp+" history_size=3", "VERIF_RACELOG="+logp, "GOTRACEBACK=single")
+		cmd.Env = append(os.Environ(), "GOMAXPROCS=1", "GORACE=halt_on_error=0 log_path="+logp+" history_size=3 atexit_sleep_ms=0", "VERIF_RACELOG="+logp, "GOTRACEBACK=single")
 		var so, se bytes.Buffer
 		cmd.Stdout, cmd.Stderr = &so, &se
 		err := cmd.Run()
